@@ -256,7 +256,19 @@ func (m *Machine) lockOp(st *State, fr *Frame, instr ssa.Instruction, mu *Ptr, m
 			for k, v := range st.guardVals {
 				nv[k] = v
 			}
-			nv[fmt.Sprintf("%d/%s", loc.Ref.id, loc.Path)] = m.Load(st, loc)
+			lv := m.Load(st, loc)
+			nv[fmt.Sprintf("%d/%s", loc.Ref.id, loc.Path)] = lv
+			if sl, isSl := lv.(*Slice); isSl {
+				// element content of a guarded slice at acquisition time
+				ss := &SliceSnap{Len: sl.Len, Off: sl.Off, Elem: sl.Elem}
+				func() {
+					defer func() { recover() }()
+					for _, l := range m.ts.Leaves(sl.Elem) {
+						ss.Arrs = append(ss.Arrs, m.elemArr(st, sl.Elem, sl.Arr, l))
+					}
+					nv[fmt.Sprintf("%d/%s/snap", loc.Ref.id, loc.Path)] = ss
+				}()
+			}
 			st.guardVals = nv
 			if _, isMap := loc.Elem.Underlying().(*types.Map); isMap {
 				// other goroutines may also have changed the content of a guarded map
@@ -272,6 +284,19 @@ func (m *Machine) lockOp(st *State, fr *Frame, instr ssa.Instruction, mu *Ptr, m
 		}
 	}
 	m.timePasses(st)
+	// rely conditions of the function under verification about lock-guarded state
+	if m.fc != nil && len(m.fc.Relies) > 0 && !st.pure && len(st.frames) > 0 && st.frames[0].entry != nil {
+		bind := map[string]Value{}
+		for k, v := range st.frames[0].entry {
+			bind[k] = v
+		}
+		for _, r := range m.fc.Relies {
+			if v, ok := m.evalClause(st, r, bind); ok {
+				st.assume(v.(*Term))
+				m.trusted["rely condition of "+relName(m.fn)+" on lock-guarded state (assumed after every lock acquisition): "+r.Raw] = true
+			}
+		}
+	}
 }
 
 func (m *Machine) fieldLoc(owner *Ptr, field string) (*Ptr, bool) {
